@@ -20,6 +20,7 @@ class C03(IdProp):
         cases = []
         if shard == 0:
             cases.append({"g": {"nodes": [0, 1, 2], "dir": [[2, 0]], "bid": [[0, 1]]}, "X": [], "Y": [1], "Z": [0]})
+            cases.extend(GG.trace_corpus(rng, tier, conditions=True))   # one query per shape of run of IDC + ID (tools/mktracecorpus.py)
         nmax = 6
         while len(cases) < n:
             if rng.random() < 0.25:      # several conditions joined by bidirected edges, each with its own parent
